@@ -50,6 +50,9 @@ fn arg_each_count(a: &Arg) -> usize {
 pub fn arg_ty(u: &Uni, a: &Arg) -> Result<Ty, TypeErr> {
     match a {
         Arg::Lhs(l) => lhs_ty(u, l),
+        // the argument lexer decides "identifier or literal" from the first characters:
+        // `0x..` is taken for an identifier, so hex integers cannot be written there
+        Arg::Lit(Lit::Int(_, IntForm::Hex | IntForm::HexUpper)) => terr("hex integer literal in argument position"),
         Arg::Lit(l) => Ok(l.ty()),
         Arg::Logical(e) => {
             if !arg_form_ok(e) {
